@@ -460,6 +460,8 @@ impl DOP853 {
                         nonstiff = 0;
                         iasti += 1;
                         if iasti == 15 {
+                            // The step is abandoned (its state is never reported): not an accepted step
+                            steps.accepted -= 1;
                             status = Status::ProbablyStiff;
                             break;
                         }
